@@ -57,7 +57,7 @@ func TestC01(t *testing.T) {
 			mon.Emit(r, "grid", c01P{Zero: z, Chain: "same", Height: "adj", TTime: "gt", Now: "past", Shape: sh, Reps: reps}, "zero")
 		}
 	}
-	for _, ch := range []string{"same", "diff"} {
+	for _, ch := range []string{"same", "diff", "case"} {
 		for _, hr := range []string{"lt", "eq", "adj", "plus2", "far"} {
 			for _, tt := range []string{"lt", "eq", "gt"} {
 				for _, nw := range []string{"past", "driftm1", "drift", "driftp1", "hour"} {
@@ -145,6 +145,8 @@ func c01Run(c *mon.Case, p c01P) {
 			uchain := "c01"
 			if p.Chain == "diff" {
 				uchain = "c01x"
+			} else if p.Chain == "case" {
+				uchain = "C01" // differs in letter case only: still another chain
 			}
 			called := 0
 			shapeErr := c01Shape(p.Shape)
